@@ -120,7 +120,7 @@ class Factor:
 
     def __mul__(self, other):
         if np.isscalar(other):
-            new_values = np.nan_to_num(other*self.values)
+            new_values = np.nan_to_num(other*self.values, posinf=np.inf, neginf=-np.inf)
             return Factor(self.domain, new_values)
         #print(self.values.max(), other.values.max(), self.domain, other.domain)
         newdom = self.domain.merge(other.domain)
@@ -168,7 +168,7 @@ class Factor:
         #assert np.isscalar(other), 'divisor must be a scalar'
         if np.isscalar(other):
             new_values = self.values / other
-            new_values = np.nan_to_num(new_values)
+            new_values = np.nan_to_num(new_values, posinf=np.inf, neginf=-np.inf)
             return Factor(self.domain, new_values)
         tmp = other.expand(self.domain)
         vals = np.divide(self.values, tmp.values, where=tmp.values>0)
